@@ -34,11 +34,15 @@ def opDec (args : List String) (impl : String) : Verdict :=
               (match spec with
                | none => some "C05: implementation accepts, reference decoder rejects"
                | some sm =>
-                 if sm.fields ≠ fl then some "C05: content differs from reference decoder"
-                 else if ¬ fl.isEmpty ∧ reb ≠ b then some "C05: re-encoding differs from input"
-                 else if ¬ fl.isEmpty ∧ (fl.map (·.2)).flatten ≠ b.drop (headerLen fl.length) then
-                   some "C06: values are not the input bytes after the header"
-                 else none)
+                 -- every clause is judged on its own (a wrong content usually also breaks C06's payload clause)
+                 let c5a := sm.fields ≠ fl
+                 let c5b := ¬ fl.isEmpty ∧ reb ≠ b
+                 let c6 := ¬ fl.isEmpty ∧ (fl.map (·.2)).flatten ≠ b.drop (headerLen fl.length)
+                 let texts := (if c5a then ["content differs from reference decoder"] else []) ++
+                   (if c5b then ["re-encoding differs from input"] else []) ++
+                   (if c6 then ["values are not the input bytes after the header"] else [])
+                 if texts.isEmpty then none
+                 else some ((if (c5a ∨ c5b) ∧ c6 then "C05,C06: " else if c6 then "C06: " else "C05: ") ++ "; ".intercalate texts))
             | _, _ => some "C05,C06: unparsable impl output"
           | _ => some "C05,C06: unparsable impl output"
       match l1v with
